@@ -28,7 +28,11 @@ struct TrA : Tr<1, true, true> {
   TrA() : Tr<1, true, true>() {}
   TrA(int x) : Tr<1, true, true>(x) {}  // implicit: Optional<TrA> is assignable from Optional<int>
 };
-enum class E { None = 0, A = 1, B = 200 };
+// None is deliberately NOT the zero enumerator (nothing in nop::Result requires that), and the zero enumerator is an ordinary error
+enum class E { Zero = 0, A = 1, None = 77, B = 200 };
+// the models number errors 0 (= none), 1, 200, 300 (= the zero enumerator)
+static E toE(int code) { return code == 0 ? E::None : code == 300 ? E::Zero : (E)code; }
+static int fromE(E e) { return e == E::None ? 0 : e == E::Zero ? 300 : (int)e; }
 
 // ================================================================ optional world
 struct MO { bool on = false; int v = 0; bool unspec = false; bool open = false; };  // open: taken from the real object at the next comparison
@@ -227,7 +231,7 @@ enum { R_SETL, R_SETR, R_ERR, R_COPY, R_MOVE, R_CLEAR, R_TAKE, R_RB_DEFAULT, R_R
        RV_ERR, RV_CLEAR, RV_COPYNEW, RV_MOVENEW, RV_SELF, R_OBSERVE, R_THROW_SETL, R_THROW_COPY };
 static const char* kRN[] = {"=lvalue", "=rvalue", "=error", "copy=", "move=", "clear", "take", "rebuild()", "rebuild(value)", "rebuild(error)",
                             "rebuild(copy)", "rebuild(move)", "rv=error", "rv.clear", "rv=copy-constructed", "rv=move-constructed", "rv=rv", "observe", "throw:=lvalue", "throw:copy="};
-static const int kErrs[] = {0, 1, 200};
+static const int kErrs[] = {0, 1, 200, 300};
 static std::string ropname(const Op& o) {
   std::string s = std::string(o.x == 0 ? "r1" : o.x == 1 ? "r2" : "rv") + "." + kRN[o.code];
   if (o.code == R_COPY || o.code == R_MOVE || o.code == R_RB_COPY || o.code == R_RB_MOVE || o.code == R_THROW_COPY) return s + "(r" + std::to_string(o.y + 1) + ")";
@@ -261,17 +265,17 @@ static void rreal(RWorld& w, const Op& o) {
   switch (o.code) {
     case R_SETL: { TrA t{o.y}; *rref(w, o.x) = t; break; }
     case R_SETR: *rref(w, o.x) = TrA{o.y}; break;
-    case R_ERR: *rref(w, o.x) = (E)o.y; break;
+    case R_ERR: *rref(w, o.x) = toE(o.y); break;
     case R_COPY: *rref(w, o.x) = *rref(w, o.y); break;
     case R_MOVE: *rref(w, o.x) = std::move(*rref(w, o.y)); break;
     case R_CLEAR: rref(w, o.x)->clear(); break;
     case R_TAKE: if (rref(w, o.x)->has_value()) { TrA t = rref(w, o.x)->take(); (void)t; } break;
     case R_RB_DEFAULT: delete rref(w, o.x); rref(w, o.x) = new nop::Result<E, TrA>(); break;
     case R_RB_VALUE: delete rref(w, o.x); rref(w, o.x) = new nop::Result<E, TrA>(TrA{o.y}); break;
-    case R_RB_ERR: delete rref(w, o.x); rref(w, o.x) = new nop::Result<E, TrA>((E)o.y); break;
+    case R_RB_ERR: delete rref(w, o.x); rref(w, o.x) = new nop::Result<E, TrA>(toE(o.y)); break;
     case R_RB_COPY: delete rref(w, o.x); rref(w, o.x) = new nop::Result<E, TrA>(*rref(w, o.y)); break;
     case R_RB_MOVE: delete rref(w, o.x); rref(w, o.x) = new nop::Result<E, TrA>(std::move(*rref(w, o.y))); break;
-    case RV_ERR: *w.rv = nop::Result<E, void>((E)o.y); break;
+    case RV_ERR: *w.rv = nop::Result<E, void>(toE(o.y)); break;
     case RV_CLEAR: w.rv->clear(); break;
     case RV_COPYNEW: { nop::Result<E, void> c(*w.rv); *w.rv = c; break; }
     case RV_MOVENEW: { nop::Result<E, void> c(std::move(*w.rv)); nop::Result<E, void> d; d = std::move(c); *w.rv = d; break; }
@@ -338,14 +342,14 @@ static std::string rcompare(RWorld& w, RModel& m) {
     if (mr.st == -2) {
       mr = MR();
       mr.st = r.has_value() ? 2 : r.has_error() ? 1 : 0;
-      if (mr.st == 1) mr.err = (int)r.error();
+      if (mr.st == 1) mr.err = fromE(r.error());
       if (mr.st == 2) { r.get().check("get after a throwing assignment"); mr.v = r.get().v; }
     }
     const int st = r.has_value() ? 2 : r.has_error() ? 1 : 0;
     if (r.has_value() && r.has_error()) return "has_value and has_error both true";
     if (st != mr.st) return "r" + std::to_string(i + 1) + " state " + std::to_string(st) + ", model " + std::to_string(mr.st);
     if (static_cast<bool>(r) != (st == 2)) return "operator bool disagrees with has_value";
-    if (st == 1 && (int)r.error() != mr.err) return "error() = " + std::to_string((int)r.error()) + ", model " + std::to_string(mr.err);
+    if (st == 1 && fromE(r.error()) != mr.err) return "error() = " + std::to_string(fromE(r.error())) + ", model " + std::to_string(mr.err);
     if (st == 1 && r.error() == E::None) return "has_error() with error None";
     if (st != 1 && r.error() != E::None) return "error() != None although no error is held";
     if (st == 2) {
@@ -354,7 +358,7 @@ static std::string rcompare(RWorld& w, RModel& m) {
       if (!mr.unspec && r.get().v != mr.v) return "value " + std::to_string(r.get().v) + ", model " + std::to_string(mr.v);
     }
   }
-  if ((int)w.rv->error() != m.rv) return "Result<E,void>::error() = " + std::to_string((int)w.rv->error()) + ", model " + std::to_string(m.rv);
+  if (fromE(w.rv->error()) != m.rv) return "Result<E,void>::error() = " + std::to_string(fromE(w.rv->error())) + ", model " + std::to_string(m.rv);
   if (w.rv->has_error() != (m.rv != 0) || static_cast<bool>(*w.rv) != (m.rv == 0)) return "Result<E,void> has_error/bool disagree with error()";
   if ((long)life().live.size() != live) return std::to_string(life().live.size()) + " tracked values alive, " + std::to_string(live) + " results hold a value";
   if (life().ctors - life().dtors != live) return "constructions - destructions != live values";
